@@ -39,10 +39,11 @@ theorem routing_flow :
       ["RLock", "read boxes", "RUnlock", "if !ok {", "call from.SendError",
        "return from.SendError(m, ErrObjectNotFound)", "}", "call NewMail", "send box", "return nil"] := ⟨rfl, rfl⟩
 
-/-- service 0: only action 8; a map that does not parse is an error; otherwise `Authenticate` (`authOutcome`) -/
+/-- service 0: only calls and posts (`silent` otherwise), only action 8; a map that does not parse is an error; otherwise `Authenticate` (`authOutcome`) -/
 theorem service0_flow :
     Gen.Auth.authReceiveFlow =
-      ["if m.Header.Action != object.AuthenticateActionID {", "call from.SendError",
+      ["if m.Header.Type != net.Call && m.Header.Type != net.Post {", "return nil", "}",
+       "if m.Header.Action != object.AuthenticateActionID {", "call from.SendError",
        "return from.SendError(m, ErrActionNotFound)", "}",
        "call s.wrapAuthenticate", "if err != nil {", "call from.SendError", "return from.SendError(m, err)", "}",
        "call from.SendReply", "return from.SendReply(m, response)"] ∧
